@@ -13,6 +13,7 @@ import (
 	"fmt"
 	"math"
 	"sort"
+	"strconv"
 	"strings"
 	"sync"
 	"unsafe"
@@ -1630,8 +1631,9 @@ func parseFieldNumValue(s string) (float64, int32, error) {
 		if !IsValidNumber(ss) {
 			return 0, Field_Type_Unknown, fmt.Errorf("invalid field value")
 		}
-		n := fastfloat.ParseBestEffort(ss)
-		if math.IsNaN(n) || math.IsInf(n, 0) {
+		// the text has been validated; take the correctly rounded value of the decimal it spells
+		n, err := strconv.ParseFloat(ss, 64)
+		if err != nil || math.IsNaN(n) || math.IsInf(n, 0) {
 			return 0, Field_Type_Unknown, fmt.Errorf("invalid number")
 		}
 		return n, Field_Type_Float, nil
@@ -1647,8 +1649,10 @@ func parseFieldNumValue(s string) (float64, int32, error) {
 		return 0, Field_Type_Unknown, fmt.Errorf("invalid field value")
 	}
 
-	f := fastfloat.ParseBestEffort(s)
-	if math.IsNaN(f) || math.IsInf(f, 0) {
+	// fastfloat.ParseBestEffort rejects a leading '+', drops the sign of "-1." and rounds exponent spellings twice;
+	// the text has been validated, so take the correctly rounded value of the decimal it spells
+	f, err := strconv.ParseFloat(s, 64)
+	if err != nil || math.IsNaN(f) || math.IsInf(f, 0) {
 		return 0, Field_Type_Unknown, fmt.Errorf("invalid number")
 	}
 
